@@ -17,8 +17,8 @@ from pbsym.stubs import NPProxy, standard_patches
 from pbsym.symnd import SymND, plain
 
 from .C06 import K0, law, outside
-from .common import (RV, cis, cmul, cneq, compare_signals, dft_terms, iterm, magnitude_bound, meta_checks, neq, rterm,
-                     zabs, zceil, zmax, zmin)
+from .common import (RV, cis, cmul, cneq, compare_signals, dft_terms, iterm, magnitude_bound, meta_checks, neq, positive_ratfun,
+                     rterm, zabs, zceil, zmax, zmin)
 
 META = {
     "stubs": ["np.exp inside pulsarbat.transforms.dedispersion records its (purely imaginary) argument and returns fresh unit-modulus "
@@ -96,7 +96,11 @@ def law_checks(S, label, got, dm, f_hz, ref_hz):
     one = z3.RealVal(1)
     got1 = z3.substitute(got, (dm, one))
     want1 = phase_cycles(one, f_hz, ref_hz)
-    tol1 = phase_tol(S, one, f_hz, ref_hz)
+    tol1 = phase_tol(S, one, f_hz, ref_hz, positive=S.symbolic)
+    if S.symbolic:
+        # f > 0 on every path (assumed: band above 0 Hz), so |f| = f; divisions are cleared exactly before the solver sees the query
+        return [(label + ":linear-in-DM", got != dm * got1), (label + ":hi", positive_ratfun(got1 - want1 - tol1)),
+                (label + ":lo", positive_ratfun(want1 - got1 - tol1))]
     return [(label + ":linear-in-DM", got != dm * got1), (label + ":hi", got1 - want1 > tol1), (label + ":lo", want1 - got1 > tol1)]
 
 
@@ -106,9 +110,10 @@ def phase_cycles(dm, f_hz, ref_hz):
     return RV(K0) * RV(10**12) * dm * f_hz * d * d
 
 
-def phase_tol(S, dm, f_hz, ref_hz):
-    d = 1 / ref_hz + 1 / zabs(f_hz)
-    return RV(K0) * RV(10**12) * zabs(dm) * zabs(f_hz) * d * d * RV(Fraction(1, 10**11))
+def phase_tol(S, dm, f_hz, ref_hz, positive=False):
+    af = f_hz if positive else zabs(f_hz)
+    d = 1 / ref_hz + 1 / af
+    return RV(K0) * RV(10**12) * zabs(dm) * af * d * d * RV(Fraction(1, 10**11))
 
 
 class TransferFunction(Unit):
